@@ -71,6 +71,13 @@ Definition steps_ok (D : nat) (l : list axstep) : Prop := Forall (fun s => (step
 Definition affine_on (D : nat) (im : nimg (K:=K)) (ab : list K * K) (V : list Z -> Prop) : Prop :=
   length (fst ab) = D /\ length (ishape im) = D /\
   forall J, length J = D -> V J -> in_box (ishape im) J = true /\ ival im J = aff (fst ab) (snd ab) J.
+(* validity of an output index of a step: inside the output image, and everything the step reads is valid; along a chain *)
+Definition valid_after (s : axstep) (im : nimg (K:=K)) (V : list Z -> Prop) (J : list Z) : Prop :=
+  in_box (ishape (run_step s im)) J = true /\ step_valid s (ishape im) V J.
+Fixpoint valid_chain (l : list axstep) (im : nimg (K:=K)) (V : list Z -> Prop) : list Z -> Prop :=
+  match l with [] => V | s :: r => valid_chain r (run_step s im) (valid_after s im V) end.
+(* images with the same shape and the same values (value functions need not be syntactically equal) *)
+Definition img_eq (im im' : nimg (K:=K)) : Prop := ishape im = ishape im' /\ forall J, ival im J = ival im' J.
 End Chain.
 
 Section ChainWorld.
